@@ -411,6 +411,38 @@ def check_aliasing(res, depth):
                     break
             n += 1
             res.states += 1
+    # appending to a WINDOW (a slice, or explicit from_/to bounds): afterwards the mapping ends with the appended map
+    # (to == len(maps), as upstream's `this.to = this.maps.push(map)`) and still equals the composition of its maps
+    for nmaps in (1, 2, 3):
+        for combo in itertools.product(range(len(pool)), repeat=nmaps):
+            for frm in range(nmaps + 1):
+                for to in range(frm, nmaps + 1):
+                    for how in ("slice", "ctor"):
+                        for extra in itertools.product(range(len(pool)), repeat=2):
+                            base = Mapping([mk_map(pool[k]) for k in combo])
+                            W = base.slice(frm, to) if how == "slice" else Mapping([mk_map(pool[k]) for k in combo], None, frm, to)
+                            hist = [["window", how, [list(combo), frm, to]]]
+                            for k in extra:
+                                W.append_map(mk_map(pool[k]))
+                                hist.append(["W", "append_map", k])
+                                res.transitions += 1
+                                case = {"kind": "aliasing", "start": "window", "history": list(hist)}
+                                if W.to != len(W.maps) or W.maps[-1].ranges != mk_map(pool[k]).ranges:
+                                    res.violate("c08.window.append", case, [W.from_, W.to, len(W.maps)], "to == len(maps)",
+                                                size=len(hist))
+                                    break
+                                bad = None
+                                for pos in positions:
+                                    for assoc in (-1, 1):
+                                        want = pos
+                                        for mm in W.maps[W.from_:W.to]:
+                                            want = mm.map(want, assoc)
+                                        if W.map(pos, assoc) != want or W.map_result(pos, assoc).pos != want:
+                                            bad = (pos, assoc, W.map(pos, assoc), want)
+                                if bad:
+                                    res.violate("c08.window.append", case, list(bad), "composition of maps[from_:to]", size=len(hist))
+                                    break
+                            n += 1
     res.sample({"kind": "aliasing", "histories": n, "depth": depth})
     return n
 
